@@ -11,6 +11,8 @@ import ClarabelProofs.Lemmas.ConesNonsymStep
 import ClarabelProofs.Lemmas.ConesPsdStep
 import ClarabelProofs.Lemmas.ConesCompositePsd
 import ClarabelProofs.Lemmas.ConesNonsymConvex
+import ClarabelProofs.Lemmas.ConesGenPowConvex
+import ClarabelProofs.Lemmas.ConesPsdCongruence
 
 namespace Clarabel.C15
 open Clarabel
@@ -821,5 +823,203 @@ example : stepLength [(⟨false, fun a => Exp.stepLength (0, 0, 0) (0, 0, 0) (-1
   norm_num [FloatLike.fmin]
 
 end NonsymConvex
+
+end Clarabel.C15
+
+/-! ## Round 4 (cone geometry): generalised power cone convexity, PSD step in original coordinates -/
+namespace Clarabel.C15
+open Clarabel
+
+section GenPowConvexSec
+open Backtrack Nonsym Composite
+
+/-- [R] generalised power cone (positive exponents summing to one, any dimensions), safety of
+**every shorter step**: from interior points `z = uz ++ wz ∈ int K*`, `s = us ++ ws ∈ int K` and
+directions of the same length, after `step_length` returned `(αz, αs)` the whole segments
+`z + t·dz` (`0 ≤ t ≤ αz`) and `s + t·ds` (`0 ≤ t ≤ αs`) stay in the open cones — the open generalised
+power cone and its dual are convex (`C14.genpow_cones_convex`: concavity of the weighted geometric
+mean from the weighted AM–GM inequality, triangle inequality of the norm).  Includes the failure
+value `0`. -/
+theorem genpow_step_safe_below (al : List ℝ) (hal : ∀ a ∈ al, 0 < a) (hsum : al.sum = 1)
+    (dz ds z s : Array ℝ) (step amin amax : ℝ) (fuel : Nat) (az as : ℝ)
+    (h : GenPow.stepLength al.toArray dz ds z s step amin amax fuel = .ok (az, as))
+    (hdz : dz.size = z.size) (hds : ds.size = s.size) (uz wz us ws : List ℝ)
+    (hzs : z.toList = uz ++ wz) (hzl : al.length = uz.length) (hss : s.toList = us ++ ws)
+    (hsl : al.length = us.length) (hz : C14.GenPowDualInterior al uz wz)
+    (hs : C14.GenPowPrimalInterior al us ws) :
+    (∀ t, 0 ≤ t → t ≤ az → ∀ u w, (candidate z dz t).toList = u ++ w → al.length = u.length →
+        C14.GenPowDualInterior al u w) ∧
+    (∀ t, 0 ≤ t → t ≤ as → ∀ u w, (candidate s ds t).toList = u ++ w → al.length = u.length →
+        C14.GenPowPrimalInterior al u w) := by
+  obtain ⟨h1, h2⟩ := GenPow.stepLength_outcome al.toArray dz ds z s step amin amax fuel az as h
+  constructor
+  · intro t ht0 ht u w huw hul
+    rcases h1.accepted with hp | h0
+    · exact GenPowConvex.dual_segment al hal hsum z dz hdz uz wz hzs hzl hz az
+        (fun u w hx hl => GenPow.inDual_mem al _ hal hp u w hx hl) t ht0 ht u w huw hul
+    · have : t = 0 := by rw [h0] at ht; linarith
+      subst this
+      have e : candidate z dz 0 = z := GenPowConvex.waxpby_zero z dz hdz
+      rw [e, hzs] at huw
+      obtain ⟨rfl, rfl⟩ := List.append_inj huw (by omega)
+      exact hz
+  · intro t ht0 ht u w huw hul
+    rcases h2.accepted with hp | h0
+    · exact GenPowConvex.primal_segment al hal hsum s ds hds us ws hss hsl hs as
+        (fun u w hx hl => GenPow.inPrimal_mem al _ hal hp u w hx hl) t ht0 ht u w huw hul
+    · have : t = 0 := by rw [h0] at ht; linarith
+      subst this
+      have e : candidate s ds 0 = s := GenPowConvex.waxpby_zero s ds hds
+      rw [e, hss] at huw
+      obtain ⟨rfl, rfl⟩ := List.append_inj huw (by omega)
+      exact hs
+
+/-- non-vacuity: `α = (½, ½)`, `z = (1, 1 | 1) ∈ int K*`, `s = (1, 1 | 0) ∈ int K`, zero directions
+of the right length. -/
+example : (∀ a ∈ [(1 / 2 : ℝ), 1 / 2], 0 < a) ∧ [(1 / 2 : ℝ), 1 / 2].sum = 1 ∧
+    (#[0, 0, 0] : Array ℝ).size = (#[1, 1, 1] : Array ℝ).size ∧
+    (#[1, 1, 1] : Array ℝ).toList = [1, 1] ++ [1] ∧ (#[1, 1, 0] : Array ℝ).toList = [1, 1] ++ [0] ∧
+    C14.GenPowDualInterior [1 / 2, 1 / 2] [1, 1] [1] ∧
+    C14.GenPowPrimalInterior [1 / 2, 1 / 2] [1, 1] [0] := by
+  refine ⟨by intro a ha; simp at ha; subst ha; norm_num, by norm_num, rfl, rfl, rfl,
+    ⟨by simp, by norm_num⟩, ⟨by simp, by norm_num⟩⟩
+
+/-- non-vacuity of the step-length hypothesis: from `z = s = (1, 1 | 0)` with zero directions the
+full step `αmax = 1` is accepted on both sides. -/
+example : GenPow.stepLength (#[1 / 2, 1 / 2] : Array ℝ) #[0, 0, 0] #[0, 0, 0] #[1, 1, 0] #[1, 1, 0]
+    (1 / 2) 1 1 1 = .ok (1, 1) := by
+  simp [GenPow.stepLength, Nonsym.backtrackSearch, GenPow.inDual, GenPow.inPrimal, Vec.waxpby,
+    GenPow.isDualFeasible, GenPow.isPrimalFeasible, GenPow.split, bind, Except.bind, pure,
+    Except.pure, GenPow.logPhiDual, GenPow.logPhiPrimal, Vec.sumsq, Vec.dot, Real.exp_pos]
+
+/-- [R] composite safety for a generalised-power block: if the composite `step_length` returned
+`m ≥ 0` and one of its cones is a generalised power cone started at interior points `(z, s)`, then
+`z + m·dz ∈ int K*` and `s + m·ds ∈ int K` — although the composite shortens the step *after* the
+cone's own back-tracking search (by `max_step_fraction` and by the symmetric cones processed
+later), the shortened step is still inside the cone. -/
+theorem composite_genpow_block_safe (al : List ℝ) (hal : ∀ a ∈ al, 0 < a) (hsum : al.sum = 1)
+    (cones : List (ConeFn ℝ)) (msf amax : ℝ) (r : ℝ × ℝ) (h : stepLength cones msf amax = .ok r)
+    (c : ConeFn ℝ) (hc : c ∈ cones) (dz ds z s : Array ℝ) (step amin : ℝ) (fuel : Nat)
+    (hstep : ∀ t, c.stepLength t = GenPow.stepLength al.toArray dz ds z s step amin t fuel)
+    (hdz : dz.size = z.size) (hds : ds.size = s.size) (uz wz us ws : List ℝ)
+    (hzs : z.toList = uz ++ wz) (hzl : al.length = uz.length) (hss : s.toList = us ++ ws)
+    (hsl : al.length = us.length) (hz : C14.GenPowDualInterior al uz wz)
+    (hs : C14.GenPowPrimalInterior al us ws) (h0 : 0 ≤ r.1) :
+    (∀ u w, (candidate z dz r.1).toList = u ++ w → al.length = u.length →
+        C14.GenPowDualInterior al u w) ∧
+    (∀ u w, (candidate s ds r.1).toList = u ++ w → al.length = u.length →
+        C14.GenPowPrimalInterior al u w) := by
+  obtain ⟨_, _, _, hall⟩ := stepLength_general cones msf amax r h
+  obtain ⟨a', rc, _, hrc, g1, g2, _⟩ := hall c hc
+  rw [hstep a'] at hrc
+  obtain ⟨k1, k2⟩ := genpow_step_safe_below al hal hsum dz ds z s step amin a' fuel rc.1 rc.2 hrc
+    hdz hds uz wz us ws hzs hzl hss hsl hz hs
+  exact ⟨k1 r.1 h0 g1, k2 r.1 h0 g2⟩
+
+end GenPowConvexSec
+
+section PsdUnscaledSec
+open PsdStep PsdTri
+
+/-- [R] the congruence bridge (Sylvester's law of inertia, the elementary half).  Under the
+Nesterov–Todd contract `NtOk K z s` of C13 (`W z = λ = W⁻ᵀ s` as `svec(diag λ)`, `R·R⁻¹ = I`, sizes)
+the scaled iterate of the step-length code is congruent to the iterate in original coordinates:
+`Rᵀ(mat z + t·mat Δz)R = Λ + t·mat(WΔz)` and `R⁻¹(mat s + t·mat Δs)R⁻ᵀ = Λ + t·mat(W⁻ᵀΔs)`; since `R`
+is invertible (`xᵀ(RᵀMR)x = (Rx)ᵀM(Rx)`), for **every** `t`: `mat z + t·mat Δz` is positive definite /
+positive semidefinite / singular exactly when `Λ + t·mat(WΔz)` is, and the same for `s`. -/
+theorem psd_congruence_bridge (K : PsdTri.Cone ℝ) (z s dz ds dzW dsW : Array ℝ) (t : ℝ)
+    (h : NtOk K z s) (hdz : mulW K false dz dz 1 0 = .ok dzW)
+    (hds : mulWinv K true ds ds 1 0 = .ok dsW) :
+    (PosDef K.n (unscaled z dz t) ↔ PosDef K.n (shifted K.lam dzW t)) ∧
+    (PosSemidef K.n (unscaled z dz t) ↔ PosSemidef K.n (shifted K.lam dzW t)) ∧
+    ((∃ v, 0 < nrm2 K.n v ∧ qform K.n (unscaled z dz t) v = 0)
+      ↔ ∃ v, 0 < nrm2 K.n v ∧ qform K.n (shifted K.lam dzW t) v = 0) ∧
+    (PosDef K.n (unscaled s ds t) ↔ PosDef K.n (shifted K.lam dsW t)) ∧
+    (PosSemidef K.n (unscaled s ds t) ↔ PosSemidef K.n (shifted K.lam dsW t)) ∧
+    ((∃ v, 0 < nrm2 K.n v ∧ qform K.n (unscaled s ds t) v = 0)
+      ↔ ∃ v, 0 < nrm2 K.n v ∧ qform K.n (shifted K.lam dsW t) v = 0) :=
+  ⟨posDef_unscaled_z_iff K z s dz dzW t h hdz, posSemidef_unscaled_z_iff K z s dz dzW t h hdz,
+    singular_unscaled_z_iff K z s dz dzW t h hdz, posDef_unscaled_s_iff K z s ds dsW t h hds,
+    posSemidef_unscaled_s_iff K z s ds dsW t h hds, singular_unscaled_s_iff K z s ds dsW t h hds⟩
+
+/-- [R] `PSDTriangleCone::step_length` is safe and tight **in original coordinates**.  Under the
+spectral contract (as in `psd_step_length_safe_tight`) and the Nesterov–Todd contract `NtOk K z s`
+for the current point, both returned steps satisfy `StepSpecU`: `0 ≤ αz ≤ αmax`,
+`mat z + t·mat Δz ≻ 0` for every `t ∈ [0, αz)`, `⪰ 0` at `t = αz`, and `αz < αmax` implies that
+`mat z + αz·mat Δz` is singular (the step ends on the boundary of the PSD cone); the same for
+`(s, Δs, αs)`. -/
+theorem psd_step_safe_tight_unscaled (K : PsdTri.Cone ℝ) (z s dz ds : Array ℝ) (γz γs amax : ℝ)
+    (r : ℝ × ℝ) (h : PsdStep.stepLength K dz ds (some γz) (some γs) amax = .ok r) (hn : 0 < K.n)
+    (hs : ScalingOk K.n K.lam K.lamIsqrt) (ham : 0 ≤ amax) (hnt : NtOk K z s)
+    (hγz : ∀ d, mulW K false dz dz 1 0 = .ok d → IsMinEig K.n (scaledDir d K.lamIsqrt) γz)
+    (hγs : ∀ d, mulWinv K true ds ds 1 0 = .ok d → IsMinEig K.n (scaledDir d K.lamIsqrt) γs) :
+    StepSpecU K.n z dz amax r.1 ∧ StepSpecU K.n s ds amax r.2 :=
+  stepLength_spec_unscaled K z s dz ds γz γs amax r h hn hs ham hnt hγz hγs
+
+/-- [R] the current point of a PSD block under the two contracts is strictly inside the cone:
+`mat z ≻ 0`, `mat s ≻ 0` (`Λ ≻ 0` and congruence). -/
+theorem psd_point_posDef (K : PsdTri.Cone ℝ) (z s : Array ℝ) (h : NtOk K z s)
+    (hs : ScalingOk K.n K.lam K.lamIsqrt) :
+    PosDef K.n (svecToMat z) ∧ PosDef K.n (svecToMat s) :=
+  NtOk.posDef K z s h hs
+
+/-- non-vacuity: the `1 × 1` cone with `λ = Λisqrt = R = R⁻¹ = 1` at `z = s = (1)` satisfies both
+contracts (the step-length and spectral hypotheses are those of `psd_step_length_safe_tight`). -/
+example : NtOk (⟨1, #[1], #[1], #[1], #[1], #[]⟩ : PsdTri.Cone ℝ) #[1] #[1] ∧
+    ScalingOk 1 (#[1] : Array ℝ) #[1] := ⟨ntOk_example, scalingOk_example⟩
+
+/-- [R] the same **from the LAPACK contracts**: if the factors handed back by LAPACK satisfy their
+contracts — Cholesky `mat s = L₁L₁ᵀ`, `mat z = L₂L₂ᵀ`, SVD `L₂ᵀL₁ = U·diag(σ)·Vt` with
+`UᵀU = Vt·Vtᵀ = I`, `σ > 0` — then `update_scaling`'s LAPACK-free tail (`assembleScaling`) produces a
+scaling `K` with the Nesterov–Todd and `Λisqrt` contracts, and every `step_length` on it that meets
+the spectral contract is safe and tight in original coordinates. -/
+theorem psd_step_safe_tight_unscaled_lapack (n : Nat) (L1 L2 U Vt sig s z dz ds : Array ℝ)
+    (γz γs amax : ℝ) (hn : 0 < n) (ham : 0 ≤ amax)
+    (h1 : L1.size = n * n) (h2 : L2.size = n * n) (hU : U.size = n * n) (hV : Vt.size = n * n)
+    (hsg : sig.size = n) (hs : s.size = PsdIndex.triangularNumber n)
+    (hz : z.size = PsdIndex.triangularNumber n)
+    (hS : toM n (svecToMat s) = toM n (matOf n L1) * (toM n (matOf n L1)).transpose)
+    (hZ : toM n (svecToMat z) = toM n (matOf n L2) * (toM n (matOf n L2)).transpose)
+    (hsvd : (toM n (matOf n L2)).transpose * toM n (matOf n L1)
+      = toM n (matOf n U) * Matrix.diagonal (fun i : Fin n => sig.getD i 0) * toM n (matOf n Vt))
+    (hUo : (toM n (matOf n U)).transpose * toM n (matOf n U) = 1)
+    (hVo : toM n (matOf n Vt) * (toM n (matOf n Vt)).transpose = 1)
+    (hpos : ∀ i, i < n → 0 < sig.getD i 0) :
+    ∃ K RRt, assembleScaling n L1 L2 U Vt sig = .ok (K, RRt) ∧ K.n = n ∧ NtOk K z s ∧
+      ScalingOk K.n K.lam K.lamIsqrt ∧
+      ∀ r, PsdStep.stepLength K dz ds (some γz) (some γs) amax = .ok r →
+        (∀ d, mulW K false dz dz 1 0 = .ok d → IsMinEig K.n (scaledDir d K.lamIsqrt) γz) →
+        (∀ d, mulWinv K true ds ds 1 0 = .ok d → IsMinEig K.n (scaledDir d K.lamIsqrt) γs) →
+        StepSpecU K.n z dz amax r.1 ∧ StepSpecU K.n s ds amax r.2 := by
+  obtain ⟨K, RRt, hK, hKn, hnt, hsc⟩ := assembleScaling_contracts n L1 L2 U Vt sig s z h1 h2 hU hV
+    hsg hs hz hS hZ hsvd hUo hVo hpos
+  refine ⟨K, RRt, hK, hKn, hnt, hsc, fun r hr hγz hγs => ?_⟩
+  exact stepLength_spec_unscaled K z s dz ds γz γs amax r hr (by rw [hKn]; exact hn) hsc ham hnt
+    hγz hγs
+
+/-- non-vacuity of the LAPACK contracts: `n = 1`, `L₁ = L₂ = U = Vt = σ = (1)`, `s = z = (1)`. -/
+example :
+    toM 1 (svecToMat (#[1] : Array ℝ))
+      = toM 1 (matOf 1 (#[1] : Array ℝ)) * (toM 1 (matOf 1 (#[1] : Array ℝ))).transpose ∧
+    (toM 1 (matOf 1 (#[1] : Array ℝ))).transpose * toM 1 (matOf 1 (#[1] : Array ℝ))
+      = toM 1 (matOf 1 (#[1] : Array ℝ))
+        * Matrix.diagonal (fun i : Fin 1 => (#[1] : Array ℝ).getD i 0) * toM 1 (matOf 1 (#[1] : Array ℝ)) ∧
+    (toM 1 (matOf 1 (#[1] : Array ℝ))).transpose * toM 1 (matOf 1 (#[1] : Array ℝ)) = 1 ∧
+    toM 1 (matOf 1 (#[1] : Array ℝ)) * (toM 1 (matOf 1 (#[1] : Array ℝ))).transpose = 1 ∧
+    (∀ i, i < 1 → 0 < (#[1] : Array ℝ).getD i 0) := by
+  refine ⟨?_, ?_, ?_, ?_, ?_⟩
+  · ext i j; fin_cases i; fin_cases j
+    simp [toM, matOf, svecToMat, Matrix.mul_apply, PsdIndex.triangularNumber]
+  · ext i j; fin_cases i; fin_cases j
+    simp [toM, matOf, Matrix.mul_apply]
+  · ext i j; fin_cases i; fin_cases j
+    simp [toM, matOf, Matrix.mul_apply]
+  · ext i j; fin_cases i; fin_cases j
+    simp [toM, matOf, Matrix.mul_apply]
+  · intro i hi
+    have : i = 0 := by omega
+    subst this; simp
+
+end PsdUnscaledSec
 
 end Clarabel.C15
